@@ -237,7 +237,8 @@ pub fn gen_setup_band(r: &mut Rng, profile: Profile, max_k: u32, band: Option<u3
         };
         receivers.push(RxSpec { kind, threshold, mirror });
     }
-    if band_lo.is_some() && !receivers.is_empty() && r.chance(1, 2) {
+    let block_share = if band_lo.unwrap_or(0) >= 20000 { 3 } else { 2 };
+    if band_lo.is_some() && !receivers.is_empty() && r.chance(block_share, 4) {
         // large single blocks: a block-level receiver (the only interface with real batches)
         receivers[0].kind = RxKind::Block;
     }
@@ -534,7 +535,7 @@ pub fn simulate_setup(mut r: Rng, setup: Setup, profile: Profile, oracles: Oracl
     let total_syms: u64 = ks.iter().map(|k| *k as u64).sum();
     let horizon = (total_syms * 2).max(20);
     let mut links: Vec<Link> = (0..ex.nrx()).map(|_| gen_link(&mut r, profile, horizon)).collect();
-    if ks.len() == 1 && ks[0] >= 700 && setup.receivers[0].kind == RxKind::Block && r.chance(2, 3) {
+    if ks.len() == 1 && ks[0] >= 700 && setup.receivers[0].kind == RxKind::Block && (ks[0] >= 20000 || r.chance(2, 3)) {
         // ... that buffers the whole transfer behind a link that loses little, so that its first
         // attempt holds surplus symbols (and, with enough of them, takes the GF(2)-only path)
         links[0] = buffering_link(&mut r);
